@@ -250,7 +250,7 @@ Fixpoint check_stmt (k : nat) (code : list ipos) (pc : nat) (s : stmt) {struct k
                   match check_block body (l0 + 9) with
                   | None => None
                   | Some lb =>
-                      let out := l0 + 9 + lb + 10 in
+                      let out := l0 + 9 + lb + 9 in
                       if slice_is code pc (gen_expr_casting lo q ++ gen_store v p ++ gen_expr_casting hi q ++
                                            [(ICopyAToC, p); (ILoad (VInteger 1%Z), p); (ICopyAToD, p)]) &&
                          is_label_at code l0 p && slice_is code (S l0) (for_test v p out) &&
@@ -267,8 +267,8 @@ Fixpoint check_stmt (k : nat) (code : list ipos) (pc : nat) (s : stmt) {struct k
                       match check_block body (l0 + 22) with
                       | None => None
                       | Some lb =>
-                          let kz := l0 + 22 + lb + 11 in
-                          let out := l0 + 22 + lb + 13 in
+                          let kz := l0 + 22 + lb + 10 in
+                          let out := l0 + 22 + lb + 12 in
                           if slice_is code pc (gen_expr_casting lo q ++ gen_store v p ++ gen_expr_casting hi q ++ [(ICopyAToC, p)] ++
                                                gen_expr_casting se q ++
                                                [(ICopyAToD, p); (ILoad (VInteger 0%Z), p); (ICopyAToB, p); (ICopyDToA, p);
@@ -319,3 +319,24 @@ Definition check_block (k : nat) (code : list ipos) : list stmt -> nat -> option
                 | None => None
                 end
     end.
+
+
+(** ** Whole programs: the declarations of the implicitly declared variables, the statements, HALT *)
+Definition dims_code (dims : list (name * pos)) : list ipos :=
+  flat_map (fun d => [(IAlloc (snd (fst d)), snd d); (IVarPathName (fst d), snd d); (ICopyAToVarPath, snd d)]) dims.
+
+(** what the declarations leave in the variable store, and the store the reference semantics start from *)
+Definition dims_env_m (dims : list (name * pos)) (e : env) : env :=
+  fold_left (fun e d => assign (touch e (fst d)) (fst d) (default_of (snd (fst d)))) dims e.
+Definition init_env (dims : list (name * pos)) : env := map (fun d => (fst d, default_of (snd (fst d)))) dims.
+
+Definition env_eq_dec : forall a b : env, {a = b} + {a <> b}.
+Proof. apply list_eq_dec. decide equality; [apply variant_eq_dec|apply name_eq_dec]. Defined.
+
+Definition check_program (k : nat) (dims : list (name * pos)) (p : program) (code : list ipos) : bool :=
+  slice_is code 0 (dims_code dims) &&
+  (if env_eq_dec (dims_env_m dims []) (init_env dims) then true else false) &&
+  match check_block k code p (length (dims_code dims)) with
+  | Some len => instr_at code (length (dims_code dims) + len) (IHalt, max_pos)
+  | None => false
+  end.
